@@ -30,7 +30,7 @@ type tamperOp struct {
 }
 
 type c42Case struct {
-	Client string     `json:"client"` // "std" | "bfe"
+	Client string     `json:"client"` // "std" | "bfe" | "ssl3" (the harness's own SSLv3 client, c42ssl3.go)
 	Cert   string     `json:"cert"`
 	Vers   uint16     `json:"vers"`
 	Suite  uint16     `json:"suite"`
@@ -41,6 +41,8 @@ type c42Case struct {
 	// (ClientHello .. Finished), addressed by record index; no application data
 	// is sent in such a case.
 	HsOps []tamperOp `json:"hs_ops,omitempty"`
+	// Hdr: Ops[0] is one of the record-header rewrites of c42hdr.go.
+	Hdr bool `json:"hdr,omitempty"`
 }
 
 type c42Combo struct {
@@ -86,6 +88,11 @@ func c42Combos() []c42Combo {
 			}
 		}
 	}
+	// SSLv3 (appended, so that the indices of the TLS combinations stay what they were): the harness's
+	// own client, RSA key exchange, all four record protections SSLv3 has here
+	for _, su := range ssl3Suites {
+		out = append(out, c42Combo{"ssl3", "rsa", vSSL30, su.id})
+	}
 	return out
 }
 
@@ -116,6 +123,9 @@ func c42Server(cb c42Combo) *bfe_tls.Config {
 }
 
 func c42Client(cb c42Combo, conn *bufConn) appClient {
+	if cb.Client == "ssl3" {
+		return newSSL3Client(conn, cb.Suite)
+	}
 	if cb.Client == "bfe" {
 		return bfe_tls.Client(conn, &bfe_tls.Config{InsecureSkipVerify: true, ServerName: "chacha.test", CipherSuites: []uint16{cb.Suite}, MinVersion: cb.Vers, MaxVersion: cb.Vers})
 	}
@@ -598,7 +608,8 @@ func c42HsCheck(r *vkit.Run, c *c42Case) {
 }
 
 func c42(r *vkit.Run) {
-	r.SetRule("every (client, certificate, version TLS1.0-1.2, suite) combination bfe_tls enables (37 with Go's crypto/tls client, RSA-SM4-SM3 x3 with bfe's own client as traffic generator; SSLv3 excluded: no standard client) x 28 tamper kinds (bit flips in type/version/length/first/middle/last body byte, cuts inside body/header/at boundary, duplicate, later replay, swap, drop, length edits, cross-connection insert/replace, forged and empty record) x 3 positions (first, middle, last post-handshake record incl. close_notify), plus one untampered control per combination, plus handshake-phase tampering (bit flip in the body of each of the client's ClientHello/ClientKeyExchange/ChangeCipherSpec/Finished records, drop, duplicate, swap: the server handshake must fail or its first Read must return an error with no data; record headers of clear-text handshake records and the 4-byte handshake message header are left alone, TLS does not authenticate the former and a larger length in the latter only stalls); thorough adds seeded sequences of 2-3 ops and single-bit flips at random offsets. Oracle: server bytes are a prefix of the client's plaintext and the Read loop ends with a non-nil error other than io.EOF; three further Reads issued after that error must return no data and an error. Ops whose effect lies wholly after the close_notify record are not counted. Non-trivial = delivered stream differs from the original; distinct = (combination, chunking, op list)")
+	r.SetRule("every (client, certificate, version, suite) combination: TLS1.0-1.2 x every suite bfe_tls enables (37 with Go's crypto/tls client, RSA-SM4-SM3 x3 with bfe's own client as traffic generator) plus SSLv3 x {RC4-SHA, 3DES-SHA, AES128-SHA, AES256-SHA} with the harness's own SSLv3 client (c42ssl3.go, written from RFC 6101, RSA key exchange, verifies the server's Finished; neither crypto/tls nor bfe_tls's client side speaks SSLv3) x 28 tamper kinds (bit flips in type/version/length/first/middle/last body byte, cuts inside body/header/at boundary, duplicate, later replay, swap, drop, length edits, cross-connection insert/replace, forged and empty record) x 3 positions (first, middle, last post-handshake record incl. close_notify), plus one untampered control per combination. RECORD-HEADER family (c42hdr.go): per combination x first/middle/last APPLICATION-DATA record, each of the 5 header bytes rewritten separately: type -> 20,21,22,24,0,0x80,0xff; version major -> 2,4,0,0xff; version minor -> every other value of 0..4 and 0xff (so +-1 and every other supported version); length high byte ^0x01, ^0x40; length low byte ^0x80, length +1, -1; record split in two, two records merged into one; counted per version x header byte (hdr:<version>:<byte>), inconclusive if any of the 20 (version incl. ssl3 x byte) cells is empty or the connection's records do not carry the intended version; oracle of that family = the statement: server bytes are a prefix of the client's plaintext and the Read loop ends with an error other than io.EOF (signatures tamper:header:<byte>:<version>:delivered-without-error / server-got-non-prefix / read-after-error-returns-data). Plus handshake-phase tampering (bit flip in the body of each of the client's ClientHello/ClientKeyExchange/ChangeCipherSpec/Finished records, drop, duplicate, swap: the server handshake must fail or its first Read must return an error with no data; record headers of clear-text handshake records and the 4-byte handshake message header are left alone, TLS does not authenticate the former and a larger length in the latter only stalls); thorough adds seeded sequences of 2-3 ops and single-bit flips at random offsets. Oracle: server bytes are a prefix of the client's plaintext and the Read loop ends with a non-nil error other than io.EOF; three further Reads issued after that error must return no data and an error. Ops whose effect lies wholly after the close_notify record are not counted. Non-trivial = delivered stream differs from the original; distinct = (combination, chunking, op list)")
+	r.Assume("C42 only: SSLv3 connections are driven by the harness's own minimal SSLv3 client (RSA key exchange, no extensions, no SNI: the server applies its default grade C, Ssl3PoodleProofed off), which supersedes the general 'SSLv3 only up to the ServerHello' assumption for this property")
 	getPKI()
 	donors := &c42Donors{m: map[c42Combo][][]byte{}}
 	if r.Replay != "" {
@@ -612,6 +623,10 @@ func c42(r *vkit.Run) {
 		r.SetMinDistinct(0)
 		if len(w.Case.HsOps) > 0 {
 			c42HsCheck(r, &w.Case)
+			return
+		}
+		if w.Case.Hdr && len(w.Case.Ops) == 1 {
+			c42HdrCheck(r, &w.Case, r.Rng("replay"))
 			return
 		}
 		cb := c42Combo{w.Case.Client, w.Case.Cert, w.Case.Vers, w.Case.Suite}
@@ -692,6 +707,8 @@ func c42(r *vkit.Run) {
 		}
 		c42Check(r, &cases[i], donors, r.Rng("donor", ci)) // same plaintext as the donor run
 	})
+	// record-header family: each header byte of application-data records, per version
+	c42HdrFamily(r, combos, avail, donors)
 	// handshake-phase tampering: bodies of ClientHello, ClientKeyExchange, ChangeCipherSpec, Finished
 	var hsCases []c42Case
 	for i, cb := range combos {
